@@ -175,7 +175,7 @@ def roots(ctx, sym, ferm):
     from .. import groups as GG
 
     for n in (2, 3):
-        for rest in U.index_tuples(sym, n - 1, "m2", "a"):
+        for rest in U.index_tuples(sym, n - 1, "m2" if n == 2 else "m1", "a"):
             for first_dual in (True, False):
                 lead = (rest[0][0], first_dual, None)
                 indices = (lead, conj_ixd(lead)) + tuple(rest[1:])
